@@ -9,12 +9,15 @@ package main
 
 import (
 	"context"
+	"errors"
 	"fmt"
 	"strings"
 	"sync/atomic"
 	"time"
 
 	"storj.io/drpc/drpcmux"
+	"storj.io/drpc/drpcstream"
+	"storj.io/drpc/drpcwire"
 
 	"storj.io/drpc"
 
@@ -242,6 +245,100 @@ func scenario(id string, seed uint64) runner.Result {
 	default:
 		return runner.Violation(id, "probe-failed:"+verdict, "connection not closed but the probe RPC failed with "+verdict+"\nprogram: "+hist)
 	}
+}
+
+// writeInFlightWhenHandlerFails: a client operation that writes (a send, a raw write, a flush, the
+// half-close) is inside the transport when the handler's error arrives and ends the RPC; the write
+// then completes. The client does nothing more with that stream than close it. The RPC has ended on
+// both sides: the probe must go through.
+func writeInFlightWhenHandlerFails(id string, seed uint64) runner.Result {
+	r := &payload.SplitMix{S: seed}
+	cfg := prog.GenConfig(r, false)
+	cfg.Net.Cap = -1
+	if r.Intn(2) == 0 {
+		cfg.Client.SoftCancel, cfg.Server.SoftCancel = true, true
+	}
+	// a writer buffer smaller than the big message and larger than the small ones: the big one goes to
+	// the transport from inside the call, the small ones wait for a flush
+	cfg.Client.WriterBufferSize = 4096
+	op := payload.Pick(r, []string{"MsgSend", "RawWrite", "RawFlush", "CloseSend"})
+	after := payload.Pick(r, []string{"Close", "Close", "CloseSend+Close", "nothing-but-Close-later"})
+	fail := make(chan struct{})
+	handler := rig.HandlerFunc(func(stream drpc.Stream, rpc string) error {
+		if rpc == "/probe" {
+			var m []byte
+			if err := stream.MsgRecv(&m, payload.Enc{}); err != nil {
+				return err
+			}
+			return stream.MsgSend(&m, payload.Enc{})
+		}
+		<-fail
+		return errors.New("handler gives up")
+	})
+	rg := rig.New(rig.Config{Net: cfg.Net, Client: cfg.Client, Server: cfg.Server}, handler)
+	defer rg.Teardown()
+	st, err := rg.Conn.NewStream(context.Background(), "/x", payload.Enc{})
+	if err != nil {
+		return runner.Inconcl(id, "NewStream: "+err.Error())
+	}
+	raw := st.(*drpcstream.Stream)
+	first := payload.Make(1, 0, 0, 0, 10)
+	st.MsgSend(&first, payload.Enc{})
+	census.Quiesce(rig.Watchdog)
+	if op == "RawFlush" {
+		raw.SetManualFlush(true)
+		m := payload.Make(1, 0, 0, 1, 50)
+		st.MsgSend(&m, payload.Enc{})
+	}
+	gate := rg.Pair.A.GateNextWrite(simnet.After)
+	gate.SucceedOnClose = true
+	big := payload.Make(1, 0, 0, 2, 6000)
+	call := rig.Go(op, func() (interface{}, error) {
+		switch op {
+		case "MsgSend":
+			return nil, st.MsgSend(&big, payload.Enc{})
+		case "RawWrite":
+			return nil, raw.RawWrite(drpcwire.KindMessage, big)
+		case "RawFlush":
+			return nil, raw.RawFlush()
+		}
+		return nil, st.CloseSend()
+	})
+	desc := fmt.Sprintf("%s soft=%v | the client's %s is inside the transport when the handler's error arrives, then completes; afterwards the client calls %s; then the probe", cfg.Desc, cfg.Client.SoftCancel, op, after)
+	if s, _ := census.QuiesceOr(gate.Reached(), rig.Watchdog); s != "ready" {
+		gate.Release()
+		return runner.Inconcl(id, "the gated write was not reached: "+desc)
+	}
+	close(fail)
+	census.Quiesce(rig.Watchdog) // the error packet has been read by the client
+	gate.Release()
+	census.Quiesce(rig.Watchdog)
+	if !call.Returned() {
+		return runner.Inconcl(id, "the gated call did not return: "+desc)
+	}
+	if strings.HasPrefix(after, "CloseSend") {
+		st.CloseSend()
+	}
+	st.Close()
+	census.Quiesce(rig.Watchdog)
+	if rig.IsClosed(rg.Conn.Closed()) {
+		return runner.Hold(id, desc+" (connection closed)", false)
+	}
+	in := payload.Make(9, 0, 0, 0, 5)
+	var out []byte
+	probe := rig.Go("probe", func() (interface{}, error) {
+		return nil, rg.Conn.Invoke(context.Background(), "/probe", payload.Enc{}, &in, &out)
+	})
+	_, snap := census.Quiesce(rig.Watchdog)
+	if !probe.Returned() {
+		return runner.Violation(id, "wedge:write-in-flight-when-the-handler-failed:"+op, "the RPC has ended on both sides, the connection is not closed, and the probe RPC is stuck at quiescence\n"+desc+"\n"+census.Dump(census.InDRPC(snap)))
+	}
+	if probe.Err != nil && !rig.IsClosed(rg.Conn.Closed()) {
+		return runner.Violation(id, "probe-failed:write-in-flight-when-the-handler-failed:"+op, "connection not closed but the probe failed with "+rig.ErrStr(probe.Err)+"\n"+desc)
+	}
+	res := runner.Hold(id, desc, true)
+	res.Events = 3
+	return res
 }
 
 // longProgram: the history before the probe is long: 40-160 RPCs of the clean and early-ending kinds one
@@ -820,6 +917,10 @@ func gen(tier string, seed uint64) []runner.Scenario {
 		if i%15 == 0 {
 			id5 := fmt.Sprintf("mux-early-return/%d", i)
 			out = append(out, runner.Scenario{ID: id5, Run: func() runner.Result { return muxEarlyReturn(id5, payload.Hash(seed, 0xC064, uint64(i))) }})
+		}
+		if i%10 == 0 {
+			id9 := fmt.Sprintf("write-in-flight-when-handler-fails/%d", i)
+			out = append(out, runner.Scenario{ID: id9, Run: func() runner.Result { return writeInFlightWhenHandlerFails(id9, payload.Hash(seed, 0xC068, uint64(i))) }})
 		}
 		if i%20 == 0 {
 			id8 := fmt.Sprintf("long-program/%d", i)
